@@ -118,7 +118,17 @@ func c18Harness(h *gwHarness, sc c18Scenario) explore.Harness {
 			vrt.Recv(env.startedC)
 			o.established = 1
 			if sc.slow {
-				slowReader(cli)
+				big := false
+				for _, u := range sc.up {
+					for _, x := range u {
+						big = big || x == "bigevent"
+					}
+				}
+				if big {
+					slowReader(cli, 8192) // an event of 20 kB passes in three pieces
+				} else {
+					slowReader(cli)
+				}
 			}
 			vrt.Explore(true)
 			for _, u := range env.ups {
@@ -181,10 +191,13 @@ func c18Harness(h *gwHarness, sc c18Scenario) explore.Harness {
 
 // slowReader turns the client end into a slow reader: what has arrived so far is consumed, from now on
 // 16 unread bytes fill the receive buffer, and the client reads again (to the end) after 6.5 s.
-func slowReader(cli *vrt.Conn) {
+func slowReader(cli *vrt.Conn, bufSize ...int) {
 	buf := make([]byte, 1<<16)
 	cli.Read(buf)
 	cli.RecvBuf = 16
+	if len(bufSize) > 0 {
+		cli.RecvBuf = bufSize[0]
+	}
 	vrt.GoDaemon("client-reader", func() {
 		vrt.Sleep(6500 * time.Millisecond)
 		for {
@@ -285,7 +298,7 @@ func c18Scenarios(tier string) []c18Scenario {
 		}
 		// a second start whose upstream handshake is still in flight when the client leaves (default schedule plus
 		// forced switches only: the handshake blocks on the upstream, the read loop goes on)
-		for _, c := range [][]cliAction{{"start2"}, {"start2", "close"}, {"start2", "stop1"}, {"stop1", "restart1"}, {"stop1", "restart1", "stop1"}} {
+		for _, c := range [][]cliAction{{"start2"}, {"start2", "close"}, {"start2", "stop1"}, {"stop1", "restart1"}, {"stop1", "restart1", "stop1"}, {"restart1"}, {"restart1", "stop1"}} {
 			for _, u := range [][]upAction{{}, {"event"}} {
 				out = append(out, c18Scenario{world: "W0+subscription-roots", sub: c18SubTick, client: c, up: [][]upAction{u, u}, timers: 0, bound: 0, planner: "plain"})
 			}
@@ -299,6 +312,9 @@ func c18Scenarios(tier string) []c18Scenario {
 			out = append(out, c18Scenario{world: "W0+subscription-roots", sub: c18SubTick, up: [][]upAction{u, u}, timers: 1, bound: b, planner: "plain", slow: true})
 		}
 		out = append(out, c18Scenario{world: "W0+subscription-roots", sub: c18SubCross, up: [][]upAction{{"event"}, {"event"}}, timers: 1, bound: 1, planner: "plain", slow: true})
+		// an event far above any buffer size while the heartbeat comes due (a gateway that writes such a message in
+		// pieces must keep other writers out until the last piece)
+		out = append(out, c18Scenario{world: "W0+subscription-roots", sub: c18SubTick, up: [][]upAction{{"bigevent"}, {"bigevent"}}, timers: 1, bound: 1, planner: "plain", slow: true})
 		// the listener of a stopped subscription is still busy (its frame is stuck at the slow reader) when its id is used again
 		for _, c := range [][]cliAction{{"stop1", "restart1"}, {"stop1", "restart1", "stop1"}} {
 			out = append(out, c18Scenario{world: "W0+subscription-roots", sub: c18SubTick, client: c, up: [][]upAction{{"event"}, {"event"}}, timers: 0, bound: 0, planner: "plain", slow: true})
@@ -341,7 +357,7 @@ func c18Scenarios(tier string) []c18Scenario {
 func init() {
 	Specs["C18"] = &Spec{
 		ID: "C18",
-		Rule: "scenario = (client script over {stop, stop again, stop unknown id, terminate, abrupt close, malformed JSON, unknown type, start with invalid query, truncated frame, second start, a start that uses the id of the stopped subscription again} of length <=2 after one established subscription; " +
+		Rule: "scenario = (client script over {stop, stop again, stop unknown id, terminate, abrupt close, malformed JSON, unknown type, start with invalid query, truncated frame, second start, a start that uses the id of the stopped - or of the still running - subscription again} of length <=2 after one established subscription; " +
 			"upstream script per subscription over {event, complete, error, disconnect, error payload} of length <=1 (thorough <=2); heartbeat ticker may fire <=1 (2) times as an environment move; plus a slow reader: the client's receive buffer holds 16 bytes (writes deliver what fits and block, a Write under way keeps other writers out, SetWriteDeadline is a virtual-time timer that fails blocked writes), the client reads nothing from 0 to 6.5 s while events arrive and the 4 s heartbeat comes due, reads on and terminates at 10 s); the real subscriptionHandler, " +
 			"subscriptionEntry.Listen/Close and MultiOpQueryer.Subscribe reader/closer goroutines (rewritten sources) run over scheduler-aware pipes with a hijacked websocket upgrade and a gobwas upstream; every schedule with <=1 (2) preemption " +
 			"inside the window that opens once the first subscription is established is executed (state-cached); invariants: no fatal/panic, no deadlock, handler returns, every goroutine started for the connection terminates, " +
@@ -349,7 +365,7 @@ func init() {
 		Assumptions: []string{"time is virtual: only orderings of ticker firings are explored", "schedules beyond the preemption bound are not covered", "gobwas/ws, encoding/json are not instrumented (no goroutines on the paths used)"},
 		Budget: func(tier string) time.Duration {
 			if tier == "quick" {
-				return 120 * time.Second
+				return 150 * time.Second
 			}
 			return 14 * time.Minute
 		},
